@@ -1,6 +1,6 @@
 """C01: every returned solution satisfies all rules."""
 import vlib
-from props import solverstream as ss, tracecheck as tc, enctie, antie
+from props import solverstream as ss, tracecheck as tc, enctie, antie, solvertie
 
 THEOREMS = ["C01_oracle_correct", "C01_closed_model_valid", "C01_final_state_valid", "C01_trace_sound",
             "C01_encoder_complete", "C01_encoder_model_valid", "C01_encoder_final_closed",
@@ -27,7 +27,13 @@ def run(res, tier, seed, replay):
     enctie.annotate(recs)
     enctie.annotate_watch(recs)
     antie.annotate_decides(recs)
+    solvertie.annotate(recs)
     for r in recs:
+        if not solvertie.ok(r):
+            res.tie_break(f"whole-run correspondence no longer checks for a synchronous run in {r['stream']}: the result, the sequence of "
+                          f"trail events, the clause database or the provider calls of the implementation differ from what the model of "
+                          f"Solver::solve (Cdcl/Solver.v) computes from the provider data and the problem: {r['solver']}",
+                          dict(ss.replay_obj(r), solver_model=r["solver"]))
         if not antie.ok_complete(r):
             res.tie_break(f"at a call of Solver::decide a clause of the database was falsified or an assertion (exclusion, Unknown "
                           f"dependencies, requirement without candidates, unit learnt clause) was not in force (extracted prop_complete; "
@@ -64,6 +70,7 @@ def run(res, tier, seed, replay):
                 "distinct (case, build) with a solution of >= 2 solvables")
     dd = [r["decides"] for r in recs if "decides" in r and "n" in r["decides"]]
     res.extra.update({"decide_calls_with_propagation_state_checked": sum(x["n"] for x in dd)})
+    res.extra.update(solvertie.stats(recs))
     res.extra.update({"outcomes": hist, "solutions_checked": nsat, "hangs": len(hangs)}, **tc.stats(recs), **enctie.stats(recs))
     return res.finish(CHECKER, vlib.TRUSTED_BASE,
                       ["provider well-formedness as generated (names consistent, candidate lists duplicate-free)",
